@@ -35,7 +35,7 @@ RULE = ('cases = (view, source size 0-3 rows (+ragged), schedule word over s_i/n
 ASSUMPTIONS = ['single-threaded cooperative schedules (petl has no threads)', 'twin views built from equal sources are deterministic (checked per view)']
 CACHING = ['sort', 'sort-key', 'sort-file-cache', 'sort-reverse-file', 'hashjoin', 'hashleftjoin', 'hashrightjoin', 'cache', 'cache-n2',
            'x:fromdicts-generator', 'x:fromdicts-generator-sample2', 'x:fromdicts-generator-shared-cells', 'join', 'distinct', 'aggregate-buffered']
-REQUIRED = ['failed-pass:source-failed-midway', 'clearcache-under-live-iterators', 'views-judged', 'schedules-run', 'fresh-passes-compared'] + ['midfill:' + v for v in CACHING]
+REQUIRED = ['failed-pass:source-failed-midway', 'clearcache-under-live-iterators', 'method-form-views', 'views-judged', 'schedules-run', 'fresh-passes-compared'] + ['midfill:' + v for v in CACHING]
 EXHAUSTIVE = {'quick': False, 'thorough': False}
 
 _files = {}
@@ -190,6 +190,12 @@ def _directed(L):
 
 def cases(ctx):
     rng = ctx.rng('schedules')
+    # the fluent / method form of every catalogue operator (etl.wrap(t).op(...)) is the same view as the function form: it is
+    # built in method form and judged against the solo run of the function form
+    for name in _all_views():
+        if name in C.ENTRIES:
+            for n, w in ((3, 's0 s1 ' + 'n0 n1 ' * 5), (2, 's0 n0 n0 s1 ' + 'n1 ' * 4 + 'n0 ' * 4)):
+                yield {'view': name, 'n': n, 'ragged': False, 'schedule': _word(w), 'method': True}
     for name in _all_views():
         sizes = [(0, False), (1, False), (2, False), (3, False), (3, True)]
         e = C.ENTRIES.get(name)
@@ -325,7 +331,11 @@ def judge(case, ctx):
     ctx.op('view:' + name)
     ctx.seen('views-judged')
     fp = case.get('failpass')
-    if fp is None:
+    if case.get('method'):
+        ctx.seen('method-form-views')
+        with C.method_form():
+            view = _build(name, n, ragged)
+    elif fp is None:
         view = _build(name, n, ragged)
     else:
         holder = []
